@@ -145,26 +145,50 @@ Proof. rewrite forallb_forall, Forall_forall. reflexivity. Qed.
 Definition wf_chunk (m : major) (c : width * list Z) : Prop :=
   arg_fits (fst c) (len (snd c)) /\ bytes_wf (snd c) /\ (m = MajText -> utf8_valid (snd c) = true).
 
+Lemma dec_head_major b t m h r : dec_head (b :: t) = DOk (m, h, r) -> m = major_of_code (b / 32).
+Proof.
+  unfold dec_head. destruct (negb (byteb b)); [discriminate|].
+  destruct (b mod 32 <? 24); [intros H; inversion H; reflexivity|].
+  destruct (b mod 32 =? 31); [intros H; inversion H; reflexivity|].
+  destruct (width_of_info (b mod 32)); [|discriminate].
+  intros H. apply dbind_ok in H as ([a r'] & _ & H). inversion H; reflexivity.
+Qed.
+
+Lemma enc_head_first_facts m w n : arg_fits w n ->
+  exists b t, enc_head m w n = b :: t /\ byteb b = true /\ major_of_code (b / 32) = m /\ (b mod 32 =? 31) = false.
+Proof.
+  intros Hfit. unfold arg_fits in Hfit.
+  destruct w; cbn [enc_head width_info width_bound] in *; eexists; eexists; (split; [reflexivity|]);
+    match goal with |- byteb (major_code m * 32 + ?i) = true /\ _ =>
+      destruct (initial_byte m i ltac:(lia)) as (Hb & Hm & Hi); rewrite Hb, Hm, Hi; repeat split; lia end.
+Qed.
+
 Lemma dec_chunk_sound m : dec_sound_for (dec_chunk m) (enc_chunk m) (wf_chunk m).
 Proof.
-  intros bs [w b] r H. unfold dec_chunk in H.
+  intros bs [w b] r H. unfold dec_chunk in H. destruct bs as [|b0 t0]; [discriminate|].
+  destruct (negb (byteb b0)); [discriminate|].
+  destruct (major_eqb (major_of_code (b0 / 32)) m && negb (b0 mod 32 =? 31)) eqn:Ec;
+    [|unfold mismatch in H; destruct ((56 <=? b0) && (b0 <=? 59)); [destruct t0 as [|? [|? ?]]|]; discriminate].
+  apply andb_true_iff in Ec as [Em _]. apply major_eqb_spec in Em.
   apply dbind_ok in H as ([[m' h] r0] & Hh & H). destruct h as [w' n|]; [|discriminate].
-  destruct (major_eqb m' m) eqn:Em; [|discriminate]. apply major_eqb_spec in Em. subst m'.
+  pose proof (dec_head_major _ _ _ _ _ Hh) as Hm'. rewrite Em in Hm'. subst m'.
   apply dbind_ok in H as ([b' r'] & Ht & H).
-  apply dec_head_sound_arg in Hh as [-> Hfit].
+  apply dec_head_sound_arg in Hh as [Hbs Hfit]. rewrite Hbs.
   apply take_sound in Ht as (-> & Hlen & Hwf); [|unfold arg_fits in Hfit; lia].
   destruct (major_eqb m MajText && negb (utf8_valid b')) eqn:Eu; [discriminate|].
   inversion H; subst; clear H. unfold enc_chunk, wf_chunk. cbn [fst snd]. rewrite <- app_assoc.
   split; [reflexivity|]. split; [exact Hfit|]. split; [exact Hwf|].
-  intros ->. rewrite major_eqb_refl in Eu. cbn in Eu. destruct (utf8_valid b); [reflexivity|discriminate].
+  intros Hmt. rewrite Hmt in Eu. rewrite major_eqb_refl in Eu. cbn in Eu. destruct (utf8_valid b); [reflexivity|discriminate].
 Qed.
 
 Lemma dec_chunk_complete m c r :
   wf_chunk m c -> (m = MajText \/ m = MajBytes) -> dec_chunk m (enc_chunk m c ++ r) = DOk (c, r).
 Proof.
-  destruct c as [w b]. intros (Hfit & Hwf & Hu) Hm. unfold enc_chunk, dec_chunk. cbn [fst snd] in *.
-  rewrite <- app_assoc, dec_head_enc by exact Hfit. cbn [dbind]. rewrite major_eqb_refl.
-  rewrite take_app by exact Hwf. cbn [dbind].
+  destruct c as [w b]. intros (Hfit & Hwf & Hu) Hm. unfold enc_chunk. cbn [fst snd] in *.
+  rewrite <- app_assoc. pose proof (dec_head_enc m w (len b) (b ++ r) Hfit) as Hd.
+  destruct (enc_head_first_facts m w (len b) Hfit) as (b0 & t0 & E & Hb0 & Hm0 & H31).
+  rewrite E in *. cbn [app] in *. unfold dec_chunk. rewrite Hb0, Hm0, H31, major_eqb_refl. cbn [negb andb].
+  rewrite Hd. cbn [dbind]. rewrite take_app by exact Hwf. cbn [dbind].
   destruct Hm as [-> | ->].
   - rewrite Hu by reflexivity. reflexivity.
   - reflexivity.
